@@ -634,8 +634,8 @@ def body_ir(draw, prof, comp_names, obj_names):
                 if sch["k"] == "array":
                     sch = sch["items"] if sch["items"]["k"] not in ("array", "any", "union") else {"k": "str"}
                     sch.pop("nullable", None)
-                if sch["k"] == "enum" or (sch["k"] == "ref" and sch["name"] not in obj_names):
-                    sch = {"k": "str"}  # a Literal[...] alias is a subscripted generic too (literal_enums)
+                if sch["k"] in ("enum", "const") or (sch["k"] == "ref" and sch["name"] not in obj_names):
+                    sch = {"k": "str"}  # a Literal[...] alias is a subscripted generic too (literal_enums; a const always is one)
             content.append([mt, sch])
         elif kd == "form":
             content.append([draw(st.sampled_from(["application/x-www-form-urlencoded"] * 3 + (FORM_MEDIA_SPELLINGS if prof.get("media_spellings") else [])))
